@@ -68,6 +68,10 @@ func (g *c18Gen) tag(s string) { g.tags[s] = true }
 // names returns n distinct names in an order unrelated to their sort order.
 func (g *c18Gen) names(prefix string, n int) []string {
 	pal := []string{"alpha", "bravo", "charlie", "delta", "echo", "foxtrot", "golf", "hotel", "india"}
+	if g.r.Chance(1, 4) {
+		// names that differ only by zero padding / by a trailing number ("natural" orderings tie or invert them)
+		pal = []string{"1", "01", "10", "2", "007", "07", "7", "010", "a1"}
+	}
 	vfShuffle(g.r, pal)
 	out := make([]string, n)
 	for i := range out {
@@ -1053,6 +1057,16 @@ func (f *c18Client) List(_ context.Context, list client.ObjectList, opts ...clie
 		var all []corev1.Secret
 		for _, k := range vfSortedKeys(f.res.PasswordSecrets) {
 			all = append(all, f.res.PasswordSecrets[k])
+			// the cluster also holds a Secret of the same name in another namespace (other content, other
+			// type for every second one): only a listing that is not restricted to MetalLB's namespace sees it
+			orig := f.res.PasswordSecrets[k]
+			twin := *orig.DeepCopy()
+			twin.Namespace = "some-other-namespace"
+			twin.Data = map[string][]byte{"password": []byte("not-metallbs-" + k)}
+			if len(all)%4 == 1 {
+				twin.Type = corev1.SecretTypeOpaque
+			}
+			all = append(all, twin)
 		}
 		l.Items = c18Fill(f, ns, true, all, func(o *corev1.Secret) string { return o.Namespace }, (*corev1.Secret).DeepCopy)
 	case *corev1.NodeList:
